@@ -102,6 +102,7 @@ type zzClo struct {
 	env    *zzFrame
 	name   string // non-empty for defun: implicit block of that name
 	prim   string // non-empty: a built-in function designated by name
+	undef  []string // functions called in the body that did not exist at creation (carve-out regions only)
 }
 
 type zzCell struct {
@@ -123,6 +124,8 @@ type zzFrame struct {
 	isFn  bool
 	dyn   *zzFrame // the caller's environment for a function frame
 	noClo bool     // function created at top level: interpreter records no closure scope
+	clo   *zzClo   // the function of a function frame
+	sblk  bool     // the interpreter's scope for this frame has its Block flag set
 }
 
 const (
@@ -159,6 +162,11 @@ const (
 	zzHMVLeak             // a special form used the primary value of a form delivering several values (not a test)
 	zzHDotimesNeg         // dotimes with a negative count
 	zzHFuncall0           // funcall/apply with no arguments for the function
+	zzHGoNoTag            // go to a tag that no enclosing tagbody has
+	zzHDoAtomTest         // do/do* whose end test is not a list form
+	zzHLambdaSym          // an unbound symbol as a body form of lambda/defun
+	zzHIgnoreRaw          // ignore-errors around a form that signals without an enclosing function call
+	zzHFwdCall            // a call to a function that did not exist when the enclosing lambda/defun was created
 	zzHMax        = 24
 )
 
@@ -172,6 +180,8 @@ type zzRef struct {
 	iters  int
 	calls  int
 	maxIt  int
+	// exits leaving sub-forms: "form/role/kind" (carve-out regions only)
+	transits []string
 }
 
 func zzNewRef() *zzRef {
@@ -320,21 +330,76 @@ func (r *zzRef) trace(k int, v zzVal) {
 	r.tv = append(r.tv, v)
 }
 
-// progn evaluates forms in order; the last one delivers all its values.
-func (r *zzRef) progn(forms []slip.Object, e *zzFrame) zzOut {
+// note records that an exit left a sub-form in position `role` of a form `form`
+// ("form/role/exit-kind").  The notes are used ONLY to compute carve-out regions.
+func (r *zzRef) note(form, role string, ex *zzExit) {
+	if ex == nil {
+		return
+	}
+	k := "err"
+	if ex.kind == zzXReturn {
+		k = "ret"
+	} else if ex.kind == zzXGo {
+		k = "go"
+	}
+	r.transits = append(r.transits, form+"/"+role+"/"+k)
+}
+
+// ev evaluates a sub-form in position `role` of `form`.
+func (r *zzRef) ev(form, role string, f slip.Object, e *zzFrame) zzOut {
+	out := r.eval(f, e)
+	r.note(form, role, out.ex)
+	return out
+}
+
+// seq evaluates forms in order; the last one delivers all its values.
+func (r *zzRef) seq(form string, forms []slip.Object, e *zzFrame) zzOut {
 	out := zzOut{}
 	for i := 0; i < len(forms); i++ {
-		out = r.eval(forms[i], e)
+		role := "mid"
+		if i == len(forms)-1 {
+			role = "last"
+		}
+		out = r.ev(form, role, forms[i], e)
 		if out.ex != nil {
+			if out.ex.kind == zzXError {
+				if _, isSym := forms[i].(slip.Symbol); isSym {
+					if form == "lambda" {
+						r.hit[zzHLambdaSym] = true
+					}
+					if form == "ignore-errors" {
+						r.hit[zzHIgnoreRaw] = true
+					}
+				} else if form == "ignore-errors" && out.ex.class == "undefined-function" {
+					if l, isList := forms[i].(slip.List); isList && r.findFn(zzHead(l)) == nil && !zzIsPrim(zzHead(l)) && !zzIsSpecial(zzHead(l)) {
+						r.hit[zzHIgnoreRaw] = true
+					}
+				}
+			}
 			return out
 		}
 	}
 	return out
 }
 
+func zzIsSpecial(h string) bool {
+	switch h {
+	case "quote", "zzvtrace", "progn", "prog1", "if", "when", "unless", "cond", "case", "and", "or", "let", "let*", "setq",
+		"lambda", "defun", "function", "funcall", "apply", "mapcar", "values", "multiple-value-bind", "dotimes", "dolist",
+		"do", "do*", "block", "return-from", "return", "tagbody", "go", "unwind-protect", "ignore-errors", "error",
+		"recover", "with-mutex-lock":
+		return true
+	}
+	return false
+}
+
+func (r *zzRef) progn(forms []slip.Object, e *zzFrame) zzOut {
+	return r.seq("body", forms, e)
+}
+
 // prim1 evaluates a form for its primary value only.
-func (r *zzRef) prim1(f slip.Object, e *zzFrame) zzOut {
-	out := r.eval(f, e)
+func (r *zzRef) prim1(form, role string, f slip.Object, e *zzFrame) zzOut {
+	out := r.ev(form, role, f, e)
 	if out.ex != nil {
 		return out
 	}
@@ -344,7 +409,11 @@ func (r *zzRef) prim1(f slip.Object, e *zzFrame) zzOut {
 func (r *zzRef) evalArgs(forms []slip.Object, e *zzFrame) ([]zzVal, *zzExit) {
 	args := make([]zzVal, 0, len(forms))
 	for i := 0; i < len(forms); i++ {
-		out := r.eval(forms[i], e)
+		role := "arg"
+		if i == len(forms)-1 {
+			role = "lastarg"
+		}
+		out := r.ev("call", role, forms[i], e)
 		if out.ex != nil {
 			return nil, out.ex
 		}
@@ -425,48 +494,48 @@ func (r *zzRef) evalList(l slip.List, e *zzFrame) zzOut {
 		r.trace(k, out.v)
 		return out
 	case "progn":
-		out := r.progn(rest, e)
+		out := r.seq("progn", rest, e)
 		if out.ex == nil && out.hasMV && len(out.mv) != 1 {
 			r.hit[zzHMVLost] = true
 		}
 		return out
 	case "prog1":
-		first := r.prim1(rest[0], e)
+		first := r.prim1("prog1", "first", rest[0], e)
 		if first.ex != nil {
 			return first
 		}
-		out := r.progn(rest[1:], e)
+		out := r.seq("prog1", rest[1:], e)
 		if out.ex != nil {
 			return out
 		}
 		return first
 	case "if":
-		t := r.eval(rest[0], e)
+		t := r.ev("if", "test", rest[0], e)
 		if t.ex != nil {
 			return t
 		}
 		r.mvTest(t)
 		if zzTruthy(t.v) {
-			return r.eval(rest[1], e)
+			return r.ev("if", "branch", rest[1], e)
 		}
 		if 2 < len(rest) {
-			return r.eval(rest[2], e)
+			return r.ev("if", "branch", rest[2], e)
 		}
 		return zzOut{}
 	case "when", "unless":
-		t := r.eval(rest[0], e)
+		t := r.ev(head, "test", rest[0], e)
 		if t.ex != nil {
 			return t
 		}
 		r.mvTest(t)
 		if zzTruthy(t.v) == (head == "when") {
-			return r.progn(rest[1:], e)
+			return r.seq(head, rest[1:], e)
 		}
 		return zzOut{}
 	case "cond":
 		for i := 0; i < len(rest); i++ {
 			cl := rest[i].(slip.List)
-			t := r.eval(cl[0], e)
+			t := r.ev("cond", "test", cl[0], e)
 			if t.ex != nil {
 				return t
 			}
@@ -476,12 +545,12 @@ func (r *zzRef) evalList(l slip.List, e *zzFrame) zzOut {
 					r.hit[zzHCondNoBody] = true
 					return zzOne(t.v)
 				}
-				return r.progn(cl[1:], e)
+				return r.seq("cond", cl[1:], e)
 			}
 		}
 		return zzOut{}
 	case "case":
-		ko := r.eval(rest[0], e)
+		ko := r.ev("case", "key", rest[0], e)
 		if ko.ex != nil {
 			return ko
 		}
@@ -510,7 +579,7 @@ func (r *zzRef) evalList(l slip.List, e *zzFrame) zzOut {
 				match = zzEql(ko.v, zzDatum(tk))
 			}
 			if match {
-				return r.progn(cl[1:], e)
+				return r.seq("case", cl[1:], e)
 			}
 		}
 		return zzOut{}
@@ -519,7 +588,7 @@ func (r *zzRef) evalList(l slip.List, e *zzFrame) zzOut {
 			return zzOne(zzVal{k: zzKT})
 		}
 		for i := 0; i < len(rest)-1; i++ {
-			t := r.eval(rest[i], e)
+			t := r.ev("and", "mid", rest[i], e)
 			if t.ex != nil {
 				return t
 			}
@@ -528,10 +597,10 @@ func (r *zzRef) evalList(l slip.List, e *zzFrame) zzOut {
 				return zzOut{}
 			}
 		}
-		return r.eval(rest[len(rest)-1], e)
+		return r.ev("and", "last", rest[len(rest)-1], e)
 	case "or":
 		for i := 0; i < len(rest)-1; i++ {
-			t := r.eval(rest[i], e)
+			t := r.ev("or", "mid", rest[i], e)
 			if t.ex != nil {
 				return t
 			}
@@ -544,14 +613,14 @@ func (r *zzRef) evalList(l slip.List, e *zzFrame) zzOut {
 		if len(rest) == 0 {
 			return zzOut{}
 		}
-		return r.eval(rest[len(rest)-1], e)
+		return r.ev("or", "last", rest[len(rest)-1], e)
 	case "let", "let*":
 		return r.evalLet(head == "let*", rest, e)
 	case "setq":
 		out := zzOut{}
 		for i := 0; i+1 < len(rest); i += 2 {
 			name := zzLower(string(rest[i].(slip.Symbol)))
-			vo := r.eval(rest[i+1], e)
+			vo := r.ev("setq", "value", rest[i+1], e)
 			if vo.ex != nil {
 				return vo
 			}
@@ -619,6 +688,7 @@ func (r *zzRef) evalList(l slip.List, e *zzFrame) zzOut {
 			}
 			o := r.callDesignator(args[0], ca, e)
 			if o.ex != nil {
+				r.note("mapcar", "fn", o.ex)
 				return o
 			}
 			r.mvLeak(o)
@@ -639,7 +709,7 @@ func (r *zzRef) evalList(l slip.List, e *zzFrame) zzOut {
 		}
 		return out
 	case "multiple-value-bind":
-		vo := r.eval(rest[1], e)
+		vo := r.ev("mvb", "values", rest[1], e)
 		if vo.ex != nil {
 			return vo
 		}
@@ -657,7 +727,7 @@ func (r *zzRef) evalList(l slip.List, e *zzFrame) zzOut {
 			ne.names = append(ne.names, zzLower(string(vars[i].(slip.Symbol))))
 			ne.cells = append(ne.cells, &zzCell{v: v})
 		}
-		return r.progn(rest[2:], ne)
+		return r.seq("mvb", rest[2:], ne)
 	case "dotimes", "dolist":
 		return r.evalDoSimple(head == "dotimes", rest, e)
 	case "do", "do*":
@@ -672,6 +742,15 @@ func (r *zzRef) evalList(l slip.List, e *zzFrame) zzOut {
 		return zzOut{ex: ex}
 	}
 	if c := r.findFn(head); c != nil {
+		for f := e; f != nil; f = f.up {
+			if f.isFn && f.clo != nil {
+				for _, u := range f.clo.undef {
+					if u == head {
+						r.hit[zzHFwdCall] = true
+					}
+				}
+			}
+		}
 		return r.applyClo(c, args, e)
 	}
 	if zzIsPrim(head) {
@@ -715,7 +794,28 @@ func (r *zzRef) mkClo(rest []slip.Object, e *zzFrame, name string) *zzClo {
 		}
 	}
 	c.body = rest[1:]
+	for _, f := range c.body {
+		r.scanUndef(f, c)
+	}
 	return c
+}
+
+// scanUndef lists the functions called in a body that do not exist yet.
+func (r *zzRef) scanUndef(f slip.Object, c *zzClo) {
+	l, ok := f.(slip.List)
+	if !ok || len(l) == 0 {
+		return
+	}
+	h := zzHead(l)
+	if h == "quote" {
+		return
+	}
+	if h != "" && !zzIsSpecial(h) && !zzIsPrim(h) && r.findFn(h) == nil && h != c.name {
+		c.undef = append(c.undef, h)
+	}
+	for i := 1; i < len(l); i++ {
+		r.scanUndef(l[i], c)
+	}
 }
 
 func (r *zzRef) fnByName(name string) zzOut {
@@ -757,7 +857,7 @@ func (r *zzRef) applyClo(c *zzClo, args []zzVal, caller *zzFrame) zzOut {
 	if 12 < r.calls {
 		vrt.Assume(false) // recursion bound of the harness
 	}
-	fe := &zzFrame{up: c.env, isFn: true, dyn: caller, noClo: c.env == nil || c.env.up == nil && !c.env.isFn}
+	fe := &zzFrame{up: c.env, isFn: true, dyn: caller, noClo: c.env == nil || c.env.up == nil && !c.env.isFn, clo: c, sblk: true}
 	for i := 0; i < len(args); i++ {
 		fe.names = append(fe.names, c.params[i])
 		fe.cells = append(fe.cells, &zzCell{v: args[i]})
@@ -766,7 +866,7 @@ func (r *zzRef) applyClo(c *zzClo, args []zzVal, caller *zzFrame) zzOut {
 		fe.isBlk = true
 		fe.blk = c.name
 	}
-	out := r.progn(c.body, fe)
+	out := r.seq("lambda", c.body, fe)
 	fe.dead = true
 	if out.ex != nil && out.ex.kind == zzXReturn && out.ex.blk == fe {
 		return zzOut{v: out.ex.v, mv: out.ex.mv, hasMV: out.ex.hasMV}
@@ -884,7 +984,7 @@ func (r *zzRef) evalLet(seq bool, rest []slip.Object, e *zzFrame) zzOut {
 		case slip.List:
 			name = zzLower(string(tb[0].(slip.Symbol)))
 			if 1 < len(tb) {
-				o := r.eval(tb[1], cur)
+				o := r.ev("let", "init", tb[1], cur)
 				if o.ex != nil {
 					return o
 				}
@@ -904,11 +1004,11 @@ func (r *zzRef) evalLet(seq bool, rest []slip.Object, e *zzFrame) zzOut {
 	if seq && len(bl) == 0 {
 		ne = &zzFrame{up: e}
 	}
-	return r.progn(rest[1:], ne)
+	return r.seq("let", rest[1:], ne)
 }
 
 // body runs an implicit tagbody: atoms are tags and are not evaluated.
-func (r *zzRef) tagbody(forms []slip.Object, tb *zzFrame) zzOut {
+func (r *zzRef) tagbody(form string, forms []slip.Object, tb *zzFrame) zzOut {
 	i := 0
 	for i < len(forms) {
 		switch forms[i].(type) {
@@ -916,6 +1016,11 @@ func (r *zzRef) tagbody(forms []slip.Object, tb *zzFrame) zzOut {
 			o := r.eval(forms[i], tb)
 			if o.ex != nil {
 				if o.ex.kind == zzXGo && o.ex.tb == tb {
+					if o.ex.idx < i {
+						r.transits = append(r.transits, form+"/stmt/goback")
+					} else {
+						r.transits = append(r.transits, form+"/stmt/gofwd")
+					}
 					r.iters++
 					if 4*r.maxIt < r.iters {
 						vrt.Assume(false) // loop bound of the harness
@@ -923,7 +1028,14 @@ func (r *zzRef) tagbody(forms []slip.Object, tb *zzFrame) zzOut {
 					i = o.ex.idx + 1
 					continue
 				}
+				r.note(form, "stmt", o.ex)
 				return o
+			}
+		default:
+			if forms[i] != nil {
+				if _, isSym := forms[i].(slip.Symbol); isSym {
+					r.transits = append(r.transits, form+"/symtag")
+				}
 			}
 		}
 		i++
@@ -941,9 +1053,19 @@ func (r *zzRef) catchBlock(out zzOut, blk *zzFrame) (zzOut, bool) {
 func (r *zzRef) evalDoSimple(times bool, rest []slip.Object, e *zzFrame) zzOut {
 	spec := rest[0].(slip.List)
 	name := zzLower(string(spec[0].(slip.Symbol)))
-	co := r.eval(spec[1], e)
+	lname := "dolist"
+	if times {
+		lname = "dotimes"
+	}
+	blk := &zzFrame{up: e, isBlk: true, blk: "nil"} // the implicit block surrounds the whole form
+	co := r.ev(lname, "count", spec[1], blk)
 	if co.ex != nil {
-		return co
+		res, own := r.catchBlock(co, blk)
+		if own {
+			r.transits = append(r.transits, lname+"/header/ownret")
+		}
+		blk.dead = true
+		return res
 	}
 	r.mvLeak(co)
 	var n int
@@ -965,17 +1087,16 @@ func (r *zzRef) evalDoSimple(times bool, rest []slip.Object, e *zzFrame) zzOut {
 		elems = co.v.l
 		n = len(elems)
 	}
-	blk := &zzFrame{up: e, isBlk: true, blk: "nil"}
 	cell := &zzCell{}
 	ve := &zzFrame{up: blk, names: []string{name}, cells: []*zzCell{cell}}
-	tb := &zzFrame{up: ve, isTB: true, tags: rest[1:]}
+	tb := &zzFrame{up: ve, isTB: true, tags: rest[1:], sblk: true}
 	for i := 0; i < n; i++ {
 		if times {
 			cell.v = zzInt(int64(i))
 		} else {
 			cell.v = elems[i]
 		}
-		o := r.tagbody(rest[1:], tb)
+		o := r.tagbody(lname, rest[1:], tb)
 		if o.ex != nil {
 			res, _ := r.catchBlock(o, blk)
 			blk.dead = true
@@ -992,8 +1113,11 @@ func (r *zzRef) evalDoSimple(times bool, rest []slip.Object, e *zzFrame) zzOut {
 	}
 	out := zzOut{}
 	if 2 < len(spec) {
-		out = r.eval(spec[2], ve)
-		out, _ = r.catchBlock(out, blk)
+		out = r.ev(lname, "result", spec[2], ve)
+		var own bool
+		if out, own = r.catchBlock(out, blk); own {
+			r.transits = append(r.transits, lname+"/header/ownret")
+		}
 	}
 	blk.dead = true
 	return out
@@ -1018,9 +1142,12 @@ func (r *zzRef) evalDo(seq bool, rest []slip.Object, e *zzFrame) zzOut {
 				if seq {
 					ie = ve
 				}
-				o := r.eval(ts[1], ie)
+				o := r.ev("do", "init", ts[1], ie)
 				if o.ex != nil {
-					res, _ := r.catchBlock(o, blk)
+					res, own := r.catchBlock(o, blk)
+					if own {
+						r.transits = append(r.transits, "do/header/ownret")
+					}
 					return res
 				}
 				r.mvLeak(o)
@@ -1036,17 +1163,26 @@ func (r *zzRef) evalDo(seq bool, rest []slip.Object, e *zzFrame) zzOut {
 		ve.cells = append(ve.cells, &zzCell{v: v})
 	}
 	end := rest[1].(slip.List)
-	tb := &zzFrame{up: ve, isTB: true, tags: rest[2:]}
+	if _, isList := end[0].(slip.List); !isList {
+		r.hit[zzHDoAtomTest] = true
+	}
+	tb := &zzFrame{up: ve, isTB: true, tags: rest[2:], sblk: true}
 	for {
-		t := r.eval(end[0], ve)
+		t := r.ev("do", "test", end[0], ve)
 		if t.ex != nil {
-			res, _ := r.catchBlock(t, blk)
+			res, own := r.catchBlock(t, blk)
+			if own {
+				r.transits = append(r.transits, "do/header/ownret")
+			}
 			blk.dead = true
 			return res
 		}
 		if zzTruthy(t.v) {
-			out := r.progn(end[1:], ve)
-			out, _ = r.catchBlock(out, blk)
+			out := r.seq("doresult", end[1:], ve)
+			var own bool
+			if out, own = r.catchBlock(out, blk); own {
+				r.transits = append(r.transits, "do/header/ownret")
+			}
 			blk.dead = true
 			return out
 		}
@@ -1054,8 +1190,11 @@ func (r *zzRef) evalDo(seq bool, rest []slip.Object, e *zzFrame) zzOut {
 		if r.maxIt < r.iters {
 			vrt.Assume(false) // loop bound of the harness
 		}
-		o := r.tagbody(rest[2:], tb)
+		o := r.tagbody("do", rest[2:], tb)
 		if o.ex != nil {
+			if !seq && o.ex.kind == zzXReturn && o.ex.blk != blk && !e.sblk {
+				r.transits = append(r.transits, "do/stmt/ret-named-nonblock")
+			}
 			res, _ := r.catchBlock(o, blk)
 			blk.dead = true
 			return res
@@ -1066,9 +1205,12 @@ func (r *zzRef) evalDo(seq bool, rest []slip.Object, e *zzFrame) zzOut {
 				r.hit[zzHDoNoStep] = true
 				continue
 			}
-			so := r.eval(steps[i], ve)
+			so := r.ev("do", "step", steps[i], ve)
 			if so.ex != nil {
-				res, _ := r.catchBlock(so, blk)
+				res, own := r.catchBlock(so, blk)
+				if own {
+					r.transits = append(r.transits, "do/header/ownret")
+				}
 				blk.dead = true
 				return res
 			}
@@ -1093,9 +1235,12 @@ func (r *zzRef) evalDo(seq bool, rest []slip.Object, e *zzFrame) zzOut {
 func (r *zzRef) evalExits(head string, rest []slip.Object, e *zzFrame) (zzOut, bool) {
 	switch head {
 	case "block":
-		name := zzLower(string(rest[0].(slip.Symbol)))
-		blk := &zzFrame{up: e, isBlk: true, blk: name}
-		out := r.progn(rest[1:], blk)
+		name := "nil"
+		if sym, ok := rest[0].(slip.Symbol); ok {
+			name = zzLower(string(sym))
+		}
+		blk := &zzFrame{up: e, isBlk: true, blk: name, sblk: true}
+		out := r.seq("block", rest[1:], blk)
 		blk.dead = true
 		out, _ = r.catchBlock(out, blk)
 		return out, true
@@ -1103,7 +1248,9 @@ func (r *zzRef) evalExits(head string, rest []slip.Object, e *zzFrame) (zzOut, b
 		name := "nil"
 		vf := rest
 		if head == "return-from" {
-			name = zzLower(string(rest[0].(slip.Symbol)))
+			if sym, ok := rest[0].(slip.Symbol); ok { // nil names the block nil
+				name = zzLower(string(sym))
+			}
 			vf = rest[1:]
 		}
 		var blk *zzFrame
@@ -1118,7 +1265,7 @@ func (r *zzRef) evalExits(head string, rest []slip.Object, e *zzFrame) (zzOut, b
 		}
 		out := zzOut{}
 		if 0 < len(vf) {
-			out = r.eval(vf[0], e)
+			out = r.ev("return", "value", vf[0], e)
 			if out.ex != nil {
 				return out, true
 			}
@@ -1129,7 +1276,7 @@ func (r *zzRef) evalExits(head string, rest []slip.Object, e *zzFrame) (zzOut, b
 		return zzOut{ex: &zzExit{kind: zzXReturn, blk: blk, v: out.v, mv: out.mv, hasMV: out.hasMV}}, true
 	case "tagbody":
 		tb := &zzFrame{up: e, isTB: true, tags: rest}
-		out := r.tagbody(rest, tb)
+		out := r.tagbody("tagbody", rest, tb)
 		tb.dead = true
 		return out, true
 	case "go":
@@ -1150,26 +1297,43 @@ func (r *zzRef) evalExits(head string, rest []slip.Object, e *zzFrame) (zzOut, b
 				}
 			}
 		}
+		r.hit[zzHGoNoTag] = true
 		return zzErr("control-error"), true
 	case "unwind-protect":
-		out := r.eval(rest[0], e)
-		cl := r.progn(rest[1:], e)
+		out := r.ev("uwp", "protected", rest[0], e)
+		cl := r.seq("uwpcleanup", rest[1:], e)
 		if cl.ex != nil {
 			return cl, true
 		}
 		return out, true
 	case "ignore-errors":
-		out := r.progn(rest, e)
+		out := r.seq("ignore-errors", rest, e)
 		if out.ex != nil && out.ex.kind == zzXError {
 			return zzOut{mv: []zzVal{{}, {k: zzKCond, s: out.ex.class}}, hasMV: true}, true
 		}
 		return out, true
+	case "recover":
+		// (recover sym handler-form body...)  [gi package]
+		out := r.seq("recover", rest[2:], e)
+		if out.ex != nil && out.ex.kind == zzXError {
+			name := zzLower(string(rest[0].(slip.Symbol)))
+			he := &zzFrame{up: e, names: []string{name}, cells: []*zzCell{{v: zzVal{k: zzKCond, s: out.ex.class}}}}
+			return r.ev("recover", "handler", rest[1], he), true
+		}
+		return out, true
+	case "with-mutex-lock":
+		// (with-mutex-lock mutex body...)  [gi package]
+		mo := r.ev("call", "arg", rest[0], e)
+		if mo.ex != nil {
+			return mo, true
+		}
+		return r.seq("with-mutex-lock", rest[1:], e), true
 	case "error":
 		_, ex := r.evalArgs(rest, e)
 		if ex != nil {
 			return zzOut{ex: ex}, true
 		}
-		return zzErr("simple-error"), true
+		return zzErr("error"), true
 	}
 	return zzOut{}, false
 }
@@ -1189,6 +1353,7 @@ type zzRun struct {
 	class int
 	cls   string
 	msg   string
+	hier  []slip.Symbol
 	sink  *zzSink
 }
 
@@ -1216,11 +1381,27 @@ func zzClassifyPanic(rec any) (int, string, string) {
 	return zzCOther, "", ""
 }
 
+// zzBudget installs an evaluation budget (the interpreter calls InterruptCheck once per
+// function evaluation) so that a program that wrongly never terminates ends as a panic
+// instead of hanging the check.
+func zzBudget(scope *slip.Scope, n int) {
+	left := n
+	scope.InterruptCheck = func() {
+		left--
+		if left < 0 {
+			panic("zz-evaluation-budget-exhausted")
+		}
+	}
+}
+
 func zzEvalGuard(run *zzRun, f func() slip.Object) {
 	defer func() {
 		if rec := recover(); rec != nil {
 			run.class, run.cls, run.msg = zzClassifyPanic(rec)
 			run.res = nil
+			if o, ok := rec.(slip.Object); ok && run.class == zzCCond {
+				run.hier = o.Hierarchy()
+			}
 		}
 	}()
 	run.res = f()
@@ -1696,6 +1877,7 @@ func zzCompareProgram(tmpl slip.Object, nlit int, carves []zzCarve) {
 	scope := slip.NewScope()
 	scope.Let(slip.Symbol("x"), slip.Fixnum(x0))
 	scope.Let(slip.Symbol("y"), slip.Fixnum(y0))
+	zzBudget(scope, 3000)
 	run := &zzRun{sink: &zzSink{}}
 	zzSinkCur = run.sink
 	form := zzInstantiate(tmpl, lits)
